@@ -139,14 +139,23 @@ func genScenario(t *rapid.T) scenario {
 		case "Forwarded":
 			// (parameter names are case-insensitive, RFC 7239, section 4; an element need not have a for parameter)
 			vals = []string{rapid.SampledFrom([]string{"for=6.6.6.6;proto=https;host=admin.example.com", "for=6.6.6.6, for=7.7.7.7", "for=\"[2001:db8::6]\"",
-				"For=6.6.6.6;Proto=https", "proto=https", "proto=https;host=admin.example.com, proto=http"}).Draw(t, "v")}
+				"For=6.6.6.6;Proto=https", "proto=https", "proto=https;host=admin.example.com, proto=http",
+				// (the same hop twice in a row: the list names every hop, it is not a set)
+				"for=6.6.6.6, for=6.6.6.6;proto=https"}).Draw(t, "v")}
 			if rapid.IntRange(0, 3).Draw(t, "secondLine") == 2 {
 				vals = append(vals, "for=9.9.9.9;proto=http")
 			}
 		case "X-Forwarded-For":
-			vals = []string{rapid.SampledFrom([]string{"6.6.6.6", "6.6.6.6, 7.7.7.7", "2001:db8::6"}).Draw(t, "v")}
+			vals = []string{rapid.SampledFrom([]string{"6.6.6.6", "6.6.6.6, 7.7.7.7", "2001:db8::6", "6.6.6.6, 6.6.6.6", "7.7.7.7, <peer>"}).Draw(t, "v")}
 			if rapid.IntRange(0, 3).Draw(t, "secondLine") == 2 {
 				vals = append(vals, "8.8.8.8, 9.9.9.9")
+			}
+
+			// (the last hop named by the header may be the peer itself, e.g. two proxies on one machine)
+			if net.ParseIP(s.Peer) != nil {
+				vals[0] = strings.ReplaceAll(vals[0], "<peer>", s.Peer)
+			} else {
+				vals[0] = strings.ReplaceAll(vals[0], "<peer>", "7.7.7.7")
 			}
 		case "X-Forwarded-Proto":
 			vals = []string{rapid.SampledFrom([]string{"https", "http"}).Draw(t, "v")}
@@ -472,6 +481,10 @@ func TestForwardedHeadersOnlyFromTrustedPeers(t *testing.T) {
 		}
 
 		ips = append(ips, s.Peer)
+
+		for i := 1; i < len(ips); i++ {
+			vkit.S.LabelIf(ips[i] == ips[i-1], "trusted_peer.same_address_twice_in_a_row")
+		}
 
 		if fmt.Sprint(got.IPs) != fmt.Sprint(ips) {
 			t.Fatalf("trusted peer: client address list %v, expected %v\n%s", got.IPs, ips, s)
